@@ -15,7 +15,7 @@ DELTA = 1e-3
 MODES = {"quick": ["jit"] * 12 + ["bounds"] * 4, "thorough": ["jit"] * 12 + ["bounds"] * 4}
 CASE_TIMEOUT_S = 120
 PRIM = ("sphere", "capsule", "box", "ellipsoid", "cylinder")
-CLASS_P = {"gap": .3, "touch": .06, "deep": .28, "nested": .08, "same": .04, "copy": .04, "lattice": .1, "parallel": .05, "coplanar": .05}
+CLASS_P = {"gap": .3, "touch": .06, "deep": .28, "nested": .08, "same": .04, "copy": .04, "lattice": .1, "parallel": .05, "coplanar": .05, "feature": .08}
 RULE = ("one case = one ordered collider pair (all 100 type pairs by index, Margin p=0.15) placed with a constructed truth: "
         "gap g in [1e-3 L, 10 L] log-uniform (half of them within a factor 3 of the band edge), or common point at certified "
         "depth >= 1e-3 L (deep/nested/same/copy), or lattice/parallel/coplanar scenes certified by the reference solver's "
@@ -71,6 +71,14 @@ def run_case(rng, idx, tier):
         r = refsolve.ref_distance(oA, oB, L, eps_rel=1e-5, max_iter=120)
         if r["lb"] >= DELTA * L:
             expected = False; margin = r["lb"] / L
+        elif r["lb"] <= 0 and r["ub"] <= 1e-6 * L:
+            # overlapping scene without constructed truth (lattice / parallel / coplanar / feature classes with
+            # coincident coordinates): certify a common point by maximising the inscribed common ball
+            from .. import penscene
+            rho = 0.5 * penscene.common_ball_lower_bound(oA, oB, 0.5 * (r["a"] + r["b"]), iters=150)
+            if rho >= DELTA * L:
+                expected = True; margin = rho / L
+                ev["overlap_certified_by_common_ball"] = 1
     rec = {"cls": "%s|%s|%s|%s" % (names[0], names[1], cls, {None: "band", True: "overlap", False: "gap"}[expected]),
            "nontrivial": expected is not None, "sig": repr(pairs.describe(sA, sB, cls, truth)),
            "sample": pairs.describe(sA, sB, cls, truth)}
